@@ -104,6 +104,7 @@ class Engine:
         self.stats["feas_checks"] += 1
         s = z3.Solver()
         s.set("rlimit", 2_000_000)
+        s.set("timeout", 60_000)      # wall-clock backstop only (queries take milliseconds): some solver phases are not metered by rlimit
         fs = list(self.run.defs) + list(self.run.pc) + list(extra)
         for c in fs: s.add(c)
         for c in S.rounding_facts(fs): s.add(c)
@@ -176,6 +177,7 @@ class Engine:
 def solve(o, rlimit=3_000_000):
     s = z3.Solver()
     s.set("rlimit", rlimit)
+    s.set("timeout", 120_000)         # wall-clock backstop (see feasible); unknown -> UNDECIDED, never a verdict
     for h in o.hyps: s.add(h)
     s.add(z3.Not(o.goal))
     for c in S.rounding_facts(list(o.hyps) + [o.goal]): s.add(c)
